@@ -368,13 +368,15 @@ CHECKS["C05"] = dict(
     explanation="GET versus a writer (overwriting PutObject, DeleteObject, CopyObject from another key, CompleteMultipartUpload) and writer versus a second PutObject on one existing key on the file-system model, possibly through two gateway processes: one of the two "
                 "operations runs to completion between two consecutive file-system steps of the other, for every position and both nesting directions; "
                 "a successful GET returns exactly one write's complete body with that write's ETag, an overwritten key never reads as missing, a read "
-                "after the acknowledged write sees it.",
+                "after the acknowledged write sees it. H05-delete-by-id: GET versus DeleteObject of the newest version by id in a versioning-enabled bucket "
+                "(the GET returns one complete version, never missing; afterwards the previous version is read).",
     harnesses=[
         dict(name="H05-interleave", entry="backend/posix.VfInterleave", reach=["interleaved"], key_trace=['"other operation runs before'], **_FS),
         dict(name="H05-interleave-head", entry="backend/posix.VfInterleaveHead", reach=["interleaved"], key_trace=['"other operation runs before'], **_FS),
+        dict(name="H05-delete-by-id", entry="backend/posix.VfInterleaveDeleteByID", reach=["interleaved"], key_trace=['"other operation runs before'], **_FS),
     ],
     assumptions=["file-system model with atomic namespace steps", "schedules in which BOTH operations are split (A1 B1 A2 B2) are not explored"],
-    outside=["more than two concurrent operations", "schedules that split both operations", "bodies longer than one (HEAD harness: two) bytes", "versioned buckets other than the overwrite / delete writers of H05-interleave", "sidecar metadata store"],
+    outside=["more than two concurrent operations", "schedules that split both operations", "bodies longer than one (HEAD harness: two) bytes", "versioned buckets other than the overwrite / delete writers of H05-interleave and the delete of the newest version by id (H05-delete-by-id)", "sidecar metadata store"],
 )
 
 CHECKS["C17"] = dict(
